@@ -59,6 +59,8 @@ def run(pid, spec, tier, seed, merged, drv):
             args = dict(params.get("args", {}))
             if "large" in args:
                 args["large"] = max(1, int(args["large"]) // 4)
+            if pid == "C05":
+                args["wide_shards"] = 1
             p2["args"] = args
             drv.mon_leg(merged, b, pid, seed, tier, p2, leg="features[%s]" % ftag(fs))
         drv.build_mon()
